@@ -74,7 +74,8 @@ class Case(object):
         return ev
 
 
-def run_once(case, vapp_fields, evolutions, migrations, other_fields=None, other_evos=None, fail_first=None, tag=False):
+def run_once(case, vapp_fields, evolutions, migrations, other_fields=None, other_evos=None, fail_first=None, tag=False,
+             force=False):
     from django_evolution.compat.apps import get_apps
     from django_evolution.evolve import EvolveAppTask, Evolver
     from django_evolution.utils.apps import get_app_label
@@ -95,7 +96,8 @@ def run_once(case, vapp_fields, evolutions, migrations, other_fields=None, other
                 else:
                     ev.queue_evolve_app(a)
             res['required'] = ev.get_evolution_required()
-            if res['required']:
+            if res['required'] or force:
+                # (`force`: the replaced `migrate` command runs the evolver whether or not the package itself has work)
                 ev.evolve()
         except Exception as e:
             res['ok'] = False
@@ -123,6 +125,7 @@ def run(ctx):
                 'non-trivial = every case (exhaustive over these parameters in both tiers)')
     relabelled_app_probe(ctx)
     late_model_cases(ctx)
+    later_migration_cases(ctx)
     combos = [(k, m, s, o) for k in (0, 1, 2) for m in (1, 2, 3) for s in range(0, m + 1) for o in (False, True)]
     ctx.rng.shuffle(combos)
     if quick:
@@ -324,6 +327,62 @@ def late_model_cases(ctx):
         if not res2['ok'] or res2['required'] or w2:
             ctx.fail(None, 'a further run after the hand-over with a new model is not a no-op: ok=%s required=%s '
                      'writes=%d' % (res2['ok'], res2['required'], len(w2)), rep)
+
+
+def later_migration_cases(ctx):
+    """a release AFTER the hand-over that only adds a migration to the app's chain (nothing for the package itself to
+    do): the migration is executed and recorded once, and the stored signature lists it"""
+    for (k, m, s, other) in ((1, 2, 1, False), (0, 2, 1, False), (1, 3, 2, True)):
+        if ctx.time_left() < 25:
+            return
+        c1, c2 = Case(k, m, s, other), Case(k, m + 1, s, other)
+        rep = {'scenario': 'a migration added after the hand-over', 'k': k, 'm': m, 's': s, 'with_other_app': other}
+        other_final = ['base', 'w1'] if other else None
+        other_evos = None
+        if other:
+            from django.db import models
+            from django_evolution.mutations import AddField
+            other_evos = [{'label': 'w_e1', 'mutations': [AddField('Wal', 'w1', models.IntegerField, null=True)]}]
+        evorig.fresh_databases()
+        evorig.clear_evolutions()
+        r0 = run_once(c1, ['base'], None, None, ['base'] if other else None)
+        f1 = ['base'] + c1.fnames + c1.gnames
+        r1 = run_once(c1, f1, c1.evolutions(), c1.migrations(), other_final, other_evos) if r0['ok'] else r0
+        if not r1['ok']:
+            ctx.count('later_migration:handover_failed')       # judged by the main cases (F45 etc.)
+            continue
+        f2 = ['base'] + c2.fnames + c2.gnames
+        res = run_once(c2, f2, c2.evolutions(), c2.migrations(), other_final, other_evos, force=True)
+        ctx.case(rep, nontrivial=True, sample_cap=2)
+        ctx.count('later_migration:%s' % ('ok' if res['ok'] else 'fails'))
+        if not res['ok']:
+            ctx.fail(None, 'the release after the hand-over fails: %s' % res['error'], rep)
+            continue
+        names = c2.names()
+        executed = [info['migration'][1] for n, info in res['trace'].signals()
+                    if n == 'applying_migration' and info['migration'][0] == 'vapp']
+        rec = recorder()
+        rep.update({'executed': executed, 'recorded': rec})
+        if executed != [names[-1]]:
+            ctx.fail(None, 'the release after the hand-over executed %s, expected exactly the new migration %s'
+                     % (executed, names[-1]), rep)
+        if sorted(set(rec)) != sorted(names) or rec.count(names[-1]) != 1:
+            ctx.fail(None, 'recorded migrations %s, expected the chain %s with the new one once' % (rec, names), rep)
+        bk = evorig.bookkeeping()
+        a = bk['sig'].get_app_sig('vapp') if bk['sig'] is not None else None
+        if a is None or a.upgrade_method != 'migrations' or sorted(set(a.applied_migrations or [])) != sorted(set(rec)):
+            ctx.fail(None, 'after the release that added a migration the stored signature lists %r, the recorder has %r'
+                     % (sorted(getattr(a, 'applied_migrations', None) or []), sorted(set(rec))), rep)
+        res2 = run_once(c2, f2, c2.evolutions(), c2.migrations(), other_final, other_evos, force=True)
+        w2 = [w for w in res2['trace'].write_statements() if 'django_project_version' not in w]
+        if not res2['ok'] or res2['required'] or w2:
+            ctx.fail(None, 'a further run after the added migration is not a no-op: %s' % (w2[:1],), rep)
+        else:
+            bk = evorig.bookkeeping()
+            a = bk['sig'].get_app_sig('vapp') if bk['sig'] is not None else None
+            if a is None or sorted(set(a.applied_migrations or [])) != sorted(set(rec)):
+                ctx.fail(None, 'after a further run the stored signature still lists %r, the recorder has %r'
+                         % (sorted(getattr(a, 'applied_migrations', None) or []), sorted(set(rec))), rep)
 
 
 def relabelled_app_probe(ctx):
